@@ -28,9 +28,13 @@ ALPHABET = [b"only_root", b"only_uid:1000,65534", b"exclude_uid:0", b"exclude_ui
 UIDS = [0, 1000, 65534]
 
 
-def scenario(out, chain, uid, tty):
-    ini = gen.render_ini([(b"output", b"file:" + out.encode() + b"/log"), (b"message_format", b"REC %{cmdline}"),
-                          (b"filter_chain", chain)])
+def scenario(out, chain, uid, tty, errmode=False):
+    opts = [(b"output", b"file:" + out.encode() + b"/log"), (b"message_format", b"REC %{cmdline}"), (b"filter_chain", chain)]
+    if errmode:
+        # error logging on and a message that does not fit: a DROPPED call must still be silent
+        opts += [(b"error_logging", b"yes"), (b"log_message_max_length", b"255"), (b"message_format", b"REC %{cmdline} " + b"z" * 300)]
+        opts.pop(1)
+    ini = gen.render_ini(opts)
     ops = [drv.op("x", out + "/log")] + gen.std_sinks(out) + [drv.op("C", ini)]
     ops.append(drv.op("S", 0, "pty" if tty else "pipein"))
     if uid != 0:
@@ -39,9 +43,9 @@ def scenario(out, chain, uid, tty):
     return ops, ini
 
 
-def run_chain(d, chain, uid, tty):
+def run_chain(d, chain, uid, tty, errmode=False):
     """-> (logged: bool)  raises Failure on any other violation."""
-    ops, ini = scenario(d.out, chain, uid, tty)
+    ops, ini = scenario(d.out, chain, uid, tty, errmode)
     if any(len(l) > 1022 for l in ini.split(b"\n")):
         return None
     res = d.scenario(ops)
@@ -66,6 +70,11 @@ def run_chain(d, chain, uid, tty):
         if content:
             nonempty[name] = content if isinstance(content, list) else content[:200]
     logged = dump["log"][2] == b"REC x y\n"
+    if errmode and want:
+        # passing call with error logging: error records are allowed next to the (possibly cut) record; only presence is required
+        if not dump["log"][2]:
+            raise Failure("chain passes by the model but nothing was logged (error_logging on)", {"chain": chain, "state": state}, key="decision")
+        return want
     if want:
         if not logged or set(nonempty) != {"log"}:
             raise Failure("chain passes by the model but the call was not logged exactly once at the output",
@@ -109,19 +118,20 @@ def strategy():
                 dup.insert(draw(st.integers(0, len(dup))), els[i])
         trailing = draw(st.sampled_from([b"", b"", b";", b";;"]))
         return {"els": els, "perm": perm, "dup": dup, "trailing": trailing, "uid": draw(st.sampled_from(UIDS)),
-                "tty": draw(st.booleans())}
+                "tty": draw(st.booleans()), "errmode": draw(st.sampled_from([False, False, False, True]))}
     return case()
 
 
 def evaluate(env, c):
     d = env.driver("ts-asan")
     base = b";".join(c["els"]) + c["trailing"]
-    r0 = run_chain(d, base, c["uid"], c["tty"])
+    em = c.get("errmode", False)
+    r0 = run_chain(d, base, c["uid"], c["tty"], em)
     if r0 is None:
         return
     for name in ("perm", "dup"):
         ch = b";".join(c[name])
-        r = run_chain(d, ch, c["uid"], c["tty"])
+        r = run_chain(d, ch, c["uid"], c["tty"], em)
         if r is not None and r != r0:
             # cannot happen if both agree with the model, kept as an independent metamorphic oracle
             raise Failure("decision changed under %s of the chain elements" % name, {"chain": base, "variant": ch}, key="metamorphic")
@@ -151,6 +161,8 @@ def classify(c):
         cls.append("unknown-or-empty-inside")
     if c["trailing"]:
         cls.append("trailing-semicolon")
+    if c.get("errmode"):
+        cls.append("error_logging+overlong-message")
     return key, cls
 
 
